@@ -178,3 +178,19 @@ prop('C13', units=['dg'], level='proof',
                   'the database answers are functions of the revision: source_root().iter_files() = ws_files, parse(f).errors() = syntax_errors(f), index().diagnostics() = index_diags (uninterpreted; two calls of iter_files yield the same sequence)',
                   'R14 helpers (assumed): Vec::extend over slice.iter().map(closure) appends closure(e) for every e in order; extend over iter().cloned() appends the slice; HashMap entry(k).or_insert_with(Vec::new) + push appends under k; iter_files() is collected into a Vec to be walked with a specified iterator',
                   'FileRange::new / Diagnostic::new are plain constructors; FileId obeys the HashMap key model'])
+
+prop('C17', units=['syn', 'dg', 'idx', 'ut'], level='proof',
+     relevant=r'(^unit::parse$|parser::ParserBase::error$|parser::Parser::finish|diagnostics::|IndexCtx::error$|utils::identifier$|utils::range_excluding_trivia$)',
+     explanation=('Partial, along the three mechanisms the property is anchored in. (1) Ranges of syntax diagnostics, end to end: unit SYN proves that every SyntaxError parse() returns has a '
+                  'range inside the text on char boundaries with start <= end (ParserBase::error records current_range, proved to lie on token boundaries); unit DG proves that the diagnostic '
+                  'built from it carries exactly that range and the file whose parse produced it. (2) Pairing with the file on top of the include stack: unit IDX proves that IndexCtx::error '
+                  'records the given range with file_trace.last(), keeping earlier diagnostics, and that utils::identifier returns the identifier token\'s own text and range paired with that file '
+                  '(the source of every define_loc / reference_loc). (3) Trimming of trailing trivia: unit UT proves that utils::range_excluding_trivia returns [node start, end of the node\'s last '
+                  'non-trivia token], start <= end, inside the node, over an assumed model of rowan\'s token sequence, when the node contains a non-trivia token (true at both call sites: statement '
+                  'nodes start with their keyword, an include path is a string token; assumed). NOT decided: that ranges read off rowan nodes (text_range()) lie in the text - that is rowan\'s '
+                  'offset arithmetic over the tree whose text C01 proves equal to the input; that the node handed to a conversion belongs to the tree of the file on top of the include stack '
+                  '(argued from Include::index: push_file(f) precedes indexing parse(f)); ranges assembled in the handlers (document symbols, hints, links) by rowan navigation.'),
+     assumptions=['as C02 (unit SYN), C13 (unit DG), C05/C03 (unit IDX) for the shared parts',
+                  'UT: rowan token API model (tokens of a file in source order; a node covers a contiguous run; last_token / prev_token walk the file sequence; node range spans its run); SyntaxKind::is_trivia is a function of the kind',
+                  'UT: the node passed to range_excluding_trivia contains a non-trivia token (tree-shape fact of the parser, assumed at the call sites in folding_range.rs and document_link.rs)',
+                  'rowan computes node and token ranges from the lengths of the token texts it was given (not re-verified)'])
